@@ -107,10 +107,13 @@ def o_render(ctx):
     mol.options.grid = (3.0, 4.0, 1.0)
     markers.enable(ctx)
     p = H.params()
-    pif = ctx.real('pi_folded', 0, 14)
-    piu = ctx.real('pi_unfolded', 0, 14)
-    mol.get_pi = lambda conformation='AVR', **kw: (pif, piu)
-    text = markers.text_of(O.get_charge_profile_section(mol, conformation='AVR'))
+    # the section can be written for the average or for one conformation: the pI it prints is that conformation's
+    which = ctx.choice('conformation', ['AVR', '1A'])
+    mol.conformations['1A'] = conf
+    pis = {c: (ctx.real('pi_folded_' + c, 0, 14), ctx.real('pi_unfolded_' + c, 0, 14)) for c in ('AVR', '1A')}
+    pif, piu = pis[which]
+    mol.get_pi = lambda conformation='AVR', **kw: pis[conformation]
+    text = markers.text_of(O.get_charge_profile_section(mol, conformation=which))
     lines = text.split('\n')
     ctx.claim('header', lines[1] == '    pH  unfolded  folded')
     rows = lines[2:4]
